@@ -44,6 +44,7 @@ def mix_case(draw):
     w = dict(WEIGHTS[L], polycyclic=1)
     # molecules built from the scheme's own patterns: every correction descriptor gets to sit next to other components
     w['witness' if L not in ('BensonGA', 'PPY') else 'witness-gas'] = 4
+    w['remapped' if L not in ('BensonGA', 'PPY') else 'remapped-gas'] = 5
     metal = 'Ru' if L == 'XieGA2022' else 'Pt'
     n = draw(st.sampled_from([2, 2, 2, 3]))
     comps = []
@@ -147,18 +148,31 @@ def check_mix(ctx, case):
             elif gm[0] != 'ok' or any(abs(gm[1].get(k, 0) - want.get(k, 0)) > 1e-12 for k in set(gm[1]) | set(want)):
                 ctx.fail('mixture-not-the-sum:Mol-object', '[%s] CombineMols of the explicit-hydrogen Mol objects of %s gives %s, the components sum to %s'
                          % (L, comps, gm if gm[0] != 'ok' else dict(gm[1]), dict(want)))
-        if sum(map(ord, smi)) % 5 == 0:
+        if sum(map(ord, smi)) % 3 == 0:
             m = _pg()
             try:
                 with warnings.catch_warnings():
                     warnings.simplefilter('ignore')
                     tot = 0.0
+                    ests = []
                     for c in comps:
-                        tot += lib.Estimate(lib.GetDescriptors(c), 'thermochem').get_HoRT(298.15)
-                    mix = lib.Estimate(lib.GetDescriptors(smi), 'thermochem').get_HoRT(298.15)
+                        ests.append(lib.Estimate(lib.GetDescriptors(c), 'thermochem'))
+                        tot += ests[-1].get_HoRT(298.15)
+                    emix = lib.Estimate(lib.GetDescriptors(smi), 'thermochem')
+                    mix = emix.get_HoRT(298.15)
+                    # all estimates exist now; entropy relative to the elements is additive too (the atoms of the pair are the
+                    # atoms of its components), whatever was decomposed in between
+                    try:
+                        sel = [e.get_SoR(298.15, S_elements=True) for e in ests]
+                        smix = emix.get_SoR(298.15, S_elements=True)
+                    except Exception:
+                        sel = None
                 ctx.count()
                 if abs(mix - tot) > 1e-9 * max(1.0, abs(tot)):
                     ctx.fail('mixture-estimate-not-the-sum', '[%s] %r: H/RT %r, components sum to %r' % (L, smi, mix, tot))
+                elif sel is not None and abs(smix - sum(sel)) > 1e-9 * max(1.0, abs(smix), sum(abs(x) for x in sel)):
+                    ctx.fail('mixture-estimate-not-the-sum:elemental-entropy', '[%s] %r: S/R relative to the elements %r, components (estimated before the pair was decomposed, '
+                             'evaluated afterwards) give %s' % (L, smi, smix, sel))
             except Exception:
                 pass
 
